@@ -1,1 +1,81 @@
-From Verif Require Import Model.Speaker.
+(* C09 — Speaker convergence: announcements depend on the current state, not on history.
+   Statements only; proofs in Proofs/SpeakerP.v and Proofs/SpeakerRefuted.v.
+   [srun ev spk h] = (existing Services K, controller state) after the event list h
+   (Service / endpoint add-update-delete, configuration, node, speaker-membership
+   events, each followed by the full re-sync it requests; EResync = any other
+   re-sync), for a node with environment [ev] (name, ignore flag, local
+   interfaces, hash).  [fresh ev st K] = a freshly started controller fed the
+   nodes, the accepted configuration and the Services of the final state.
+   [announced_equiv]: same addresses (with interface sets) held by the layer-2
+   announcer for every Service and same route set on every BGP session. *)
+From Coq Require Import List NArith Bool.
+From Verif Require Import Model.Speaker Proofs.SpeakerP Proofs.SpeakerRefuted.
+Local Open Scope N_scope.
+
+(* In every reachable state a full re-sync yields exactly the announcements of a fresh speaker *)
+Theorem C09_resync_normal_form : forall ev spk h,
+  forallb (event_ok ev) h = true ->
+  let ws := srun ev spk h in
+  announced_equiv (resync ev (fst ws) (snd ws)) (fresh ev (snd ws) (fst ws)).
+Proof. exact resync_normal_form_run. Qed.
+
+(* History independence.  event_ok: no Service with a repeated address; no
+   configuration whose layer-2 advertisements select this node only through
+   interfaces it does not have (F9).  stale_after = false: no first event of a
+   node (which requests no re-sync, F19) happened with Services present
+   without a full re-sync afterwards. *)
+Theorem C09_history_independent_partial : forall ev spk h,
+  forallb (event_ok ev) h = true ->
+  stale_after ev ([], sinit spk) false h = false ->
+  announced_equiv (snd (srun ev spk h)) (fresh ev (snd (srun ev spk h)) (fst (srun ev spk h))).
+Proof. exact history_independent_partial. Qed.
+
+(* F9: without the interface hypothesis the statement is false (old announcement kept) *)
+Theorem C09_history_independent_refuted_interfaces :
+  exists ev spk h,
+    forallb (fun e => match e with ESvc _ (Some s) => svc_ok s | _ => true end) h = true /\
+    stale_after ev ([], sinit spk) false h = false /\
+    ~ announced_equiv (snd (srun ev spk h)) (fresh ev (snd (srun ev spk h)) (fst (srun ev spk h))).
+Proof.
+  exists env_id, (Some [0]), f9_history.
+  destruct f9_refuted as [H1 [H2 [_ [_ H3]]]]. auto.
+Qed.
+
+(* F19: without the hypothesis on first node events the statement is false *)
+Theorem C09_history_independent_refuted_first_node_event :
+  exists ev spk h,
+    forallb (event_ok ev) h = true /\
+    ~ announced_equiv (snd (srun ev spk h)) (fresh ev (snd (srun ev spk h)) (fst (srun ev spk h))).
+Proof.
+  exists env_rev, None, f19_history.
+  destruct f19_refuted as [H1 [_ [_ [_ H3]]]]. auto.
+Qed.
+
+(* the statement's "in particular": once processed, nothing remains announced for a
+   Service that was deleted, is not a LoadBalancer, has no / an invalid address
+   or an address outside the configured pools (plan = None) *)
+Theorem C09_nothing_for_gone_service : forall ev spk h name os,
+  forallb (event_ok ev) (h ++ [ESvc name os]) = true ->
+  plan (s_cfg (snd (srun ev spk (h ++ [ESvc name os])))) os = None ->
+  let st := snd (srun ev spk (h ++ [ESvc name os])) in
+  s_l2 st name = None /\ bs_ads (s_bgp st) name = None.
+Proof. exact nothing_for_gone_service. Qed.
+
+(* ... and a processed Service is announced exactly when the current ShouldAnnounce
+   decisions say so, with exactly the prescribed content *)
+Theorem C09_service_normal_form : forall ev name os st,
+  Bk ev st -> cfg_good ev st -> (forall s, os = Some s -> svc_ok s = true) ->
+  nf_name ev (set_balancer ev name os st) name os.
+Proof. intros ev name os st B G H. apply (set_balancer_spec ev name os st B G H). Qed.
+
+(* a configuration that orphans a recorded address changes nothing (and asks for a retry) *)
+Theorem C09_setconfig_refusal : forall ev c st,
+  snd (set_config ev c st) = false -> fst (set_config ev c st) = st.
+Proof. exact setconfig_refusal. Qed.
+
+(* non-vacuity: the F19 history converges once the missing re-sync is added *)
+Example C09_nonvacuous :
+  s_l2 (snd (srun env_rev None (f19_history ++ [EResync]))) 0 = None /\
+  stale_after env_rev ([], sinit None) false (f19_history ++ [EResync]) = false /\
+  s_l2 (snd (srun env_id (Some [0]) (firstn 3 f9_history))) 0 <> None.
+Proof. vm_compute. repeat split; discriminate. Qed.
